@@ -139,7 +139,7 @@ def run(ctx):
         cases.append((tree, script))
     for l in common.load_corpus("C03"):
         cases.append(parse_op(l))
-    known = [k for k in common.load_known("C03") if k.get("status") == "known"]
+    known = [k for k in common.load_known("C03") if k.get("status") == "known" and k.get("witness", "").startswith("m.run")]
     for k in known:
         cases.append(parse_op(k["witness"]))
     # a stream goes on as its clone at any point (evfilt and evmrul clone their constituents; `c' in the script), or is the
@@ -194,6 +194,26 @@ def run(ctx):
     for op, why in afails:
         alg[len(alg)] = op
         fails.append((-len(alg), why))
+    # files in two output scales merged by the command line tool (recorded finding, class mixed-calscale)
+    import os, subprocess, tempfile
+    objs, log = ctx.lib_objects()
+    cli, log = ctx.cc("echse_hx", [os.path.join(common.HARNESS, "hx_echse.c"), os.path.join(ctx.src, "version.c")] + (objs or []),
+                      extra=["-DHAVE_VERSION_H", "-DSTANDALONE"])
+    if cli:
+        d = tempfile.mkdtemp(prefix="hxc03-", dir=ctx.scratch)
+        open(os.path.join(d, "a.ics"), "w").write("BEGIN:VCALENDAR\nCALSCALE:HIJRI.IA\nBEGIN:VEVENT\nUID:h\nSUMMARY:h\nDTSTART;VALUE=DATE:20190101\n"
+                                                "RRULE:FREQ=MONTHLY;COUNT=2\nEND:VEVENT\nEND:VCALENDAR\n")
+        open(os.path.join(d, "b.ics"), "w").write("BEGIN:VCALENDAR\nBEGIN:VEVENT\nUID:g\nSUMMARY:g\nDTSTART;VALUE=DATE:20190415\nEND:VEVENT\nEND:VCALENDAR\n")
+        r = subprocess.run([cli, "unroll", os.path.join(d, "a.ics"), os.path.join(d, "b.ics")], stdout=subprocess.PIPE, stderr=subprocess.PIPE,
+                           env=dict(os.environ, ASAN_OPTIONS="detect_leaks=0"), timeout=60)
+        names = [l.split("\t")[1] for l in r.stdout.decode().split("\n") if "\t" in l]
+        ctx.cov["mixed_calscale_probe"] = names
+        if names != ["h", "h", "g"]:       # 1440-04-23 = 2019-01-01 and 1440-05-25 come before 2019-04-15
+            kn = [k for k in common.load_known("C03") if k.get("status") == "known" and k.get("class") == "mixed-calscale"]
+            if kn:
+                ctx.known(kn[0]["what"])
+            else:
+                fails.append((0, "`echse unroll' of a file with CALSCALE:HIJRI.IA (occurrences 2019-01-01, 2019-02-0x) and a Gregorian one (2019-04-15): order %s" % names))
     ctx.cov.update({
         "scripts_with_clones": int(nclones), "calendars_through_whole_parser": an, "occurrences_compared_with_union": aocc, "calendar_shapes": ahist,
         "evaluations": len(ops) + an,
